@@ -53,6 +53,7 @@ SPEC = {
              "1..40 draws; parent and child(ren) each draw 1000 ids. A case is non-trivial if it started at least one span "
              "(or forked); distinct = distinct hash of the sequence of (options shape, decisive mechanism, flag class, "
              "scope operation)."),
+    "rule_extra": ' Round 2: one model case in eight is a deep-nesting case (span depth up to 64, up to 70 open scopes, 60-180 operations).',
     "assumptions": ASSUME_COMMON + [
         "the sampler's decision is what the instrumented wrapper saw the configured sampler return for that StartSpan",
         "an explicit Context that carries a valid span AND is marked root is ambiguous in the statement: either reading "
